@@ -44,6 +44,7 @@ func runC05(c *Ctx) {
 	c05Consume(c)
 	c05ReadThenWrite(c)
 	c05Unconsumed(c)
+	c05StickyErr(c)
 }
 
 // findLit returns the function literal inside f that evaluates a call to ref.
